@@ -17,7 +17,9 @@
 #include <stdint.h>
 #include <string.h>
 
+#ifndef RL
 #define RL 36
+#endif
 typedef struct { int n; uint32_t l[RL]; } R;
 static int r_ovf = 0;
 
